@@ -3,7 +3,7 @@ exactly."""
 import math
 
 from .. import families, harness
-from ..families import INT_RANGES, Indexable, Plain, f32
+from ..families import INT_RANGES, Indexable, Plain, f32, is_duck_number
 from ..harness import brief, call, eq
 from ..runner import rng_for
 
@@ -186,7 +186,8 @@ def run_case(fam, impl, kind, entry, pos, lab, datum, populated, rng, rec):
             fam.kc == 'O' and pos == 'key' and isinstance(datum, float)
             and datum != datum):
         populated = False
-    if fam.kc == 'O' and pos == 'key' and isinstance(datum, (dict, complex)):
+    if fam.kc == 'O' and pos == 'key' and isinstance(
+            datum, (dict, complex, memoryview)):
         return      # accepted but not orderable (like NaN)
     c = build_base(fam, impl, kind, populated and entry != 'setstate', rng)
     before = harness.contents(c, is_mapping)
@@ -211,7 +212,8 @@ def run_case(fam, impl, kind, entry, pos, lab, datum, populated, rng, rec):
                 position=pos, datum_class=lab, datum=brief(datum, 80),
                 populated=populated)
     rec.journal(repr(desc))
-    is_index = isinstance(datum, Indexable)
+    is_index = isinstance(datum, Indexable) or (
+        is_duck_number(datum) and pos == 'value' and fam.vc == 'F')
     out, c2 = do_write(fam, impl, kind, c, entry, k, v)
     rec.evaluations += 1
     rec.ev('entry:' + entry)
